@@ -695,7 +695,21 @@ def _get_lambda_in_stream(
         (node for node in ast.walk(a_module) if isinstance(node, ast.Lambda)),
         None,
     )
+    if lda is not None:
+        # Where it was found, in tokenizer coordinates (row, column).
+        lda._source_span = (start_token.start, accumulated_tokens[-1].end)  # type: ignore
     return lda, saw_new_line
+
+
+def _code_start(f: Callable) -> Optional[Tuple[int, int]]:
+    "Line and column of the first expression in the code of `f`, if python records it (3.11+)"
+    positions = getattr(getattr(f, "__code__", None), "co_positions", None)
+    if positions is None:
+        return None
+    for line, _, col, end_col in positions():
+        if line is not None and col is not None and end_col:
+            return line, col
+    return None
 
 
 def _parse_source_for_lambda(
@@ -798,6 +812,18 @@ def _parse_source_for_lambda(
             )
 
         lda = good_lambdas[0]
+
+        # Where python knows the position of the function's code, it has to be inside the lambda
+        # we picked: a lambda that was handed on by another method can look like its neighbor.
+        code_start = _code_start(ast_source)
+        span = getattr(lda, "_source_span", None)
+        if code_start is not None and span is not None:
+            (row_0, col_0), (row_1, col_1) = span
+            if not ((lambda_line + row_0, col_0) <= code_start <= (lambda_line + row_1, col_1)):
+                raise ValueError(
+                    f"Unable to identify the lambda passed to {caller_name} in the source - put it on "
+                    "a line of its own or give its arguments different names."
+                )
 
     return lda
 
